@@ -27,6 +27,7 @@ func itoa(i int) string { return strconv.Itoa(i) }
 type URLRec struct {
 	Sch  string   `json:"sch"`
 	Host string   `json:"host"`
+	Port string   `json:"port"`
 	Path []string `json:"path"`
 	Q    string   `json:"q"`
 }
@@ -35,6 +36,7 @@ type Loc struct {
 	K    string   `json:"k"` // none abs schrel path rel query frag
 	Sch  string   `json:"sch"`
 	Host string   `json:"host"`
+	Port string   `json:"port"`
 	Path []string `json:"path"`
 	Q    string   `json:"q"`
 	Up   int      `json:"up"`
@@ -71,8 +73,23 @@ type Case struct {
 
 func pathString(p []string) string { return "/" + strings.Join(p, "/") }
 
+func hostPort(h, p string) string {
+	if p != "" {
+		return h + ":" + p
+	}
+	return h
+}
+
+// noFrag drops the fragment: it never reaches the peer and the specification does not speak about it.
+func noFrag(s string) string {
+	if i := strings.IndexByte(s, '#'); i >= 0 {
+		return s[:i]
+	}
+	return s
+}
+
 func urlString(u URLRec) string {
-	s := u.Sch + "://" + u.Host + pathString(u.Path)
+	s := u.Sch + "://" + hostPort(u.Host, u.Port) + pathString(u.Path)
 	if u.Q != "" {
 		s += "?" + u.Q
 	}
@@ -87,9 +104,9 @@ func locString(l Loc) string {
 	}
 	switch l.K {
 	case "abs":
-		return l.Sch + "://" + l.Host + pathString(l.Path) + q
+		return l.Sch + "://" + hostPort(l.Host, l.Port) + pathString(l.Path) + q
 	case "schrel":
-		return "//" + l.Host + pathString(l.Path) + q
+		return "//" + hostPort(l.Host, l.Port) + pathString(l.Path) + q
 	case "path":
 		return pathString(l.Path) + q
 	case "rel":
@@ -144,7 +161,8 @@ func errClass(err error) string {
 		return "timeout"
 	case errors.Is(err, errs.ErrBadPoolConn):
 		return "badpool"
-	case errors.Is(err, errs.ErrConnectionClosed) || errors.Is(err, io.EOF) || errors.Is(err, io.ErrUnexpectedEOF):
+	case errors.Is(err, errs.ErrConnectionClosed) || errors.Is(err, io.EOF) || errors.Is(err, io.ErrUnexpectedEOF) ||
+		strings.Contains(err.Error(), "closed connection before returning the first response byte"):
 		return "closed"
 	case errors.Is(err, errs.ErrNoFreeConns):
 		return "nofree"
@@ -162,7 +180,10 @@ func errMsg(err error) string {
 func (r *runner) middleware(i int) client.Middleware {
 	return func(next client.Endpoint) client.Endpoint {
 		return func(ctx context.Context, req *protocol.Request, resp *protocol.Response) error {
-			r.ev("MwIn", map[string]interface{}{"i": i, "url": req.URI().String(), "method": string(req.Method())})
+			if r.x == 0 { // warm-up call: only what the peer sees is recorded
+				return next(ctx, req, resp)
+			}
+			r.ev("MwIn", map[string]interface{}{"i": i, "url": noFrag(req.URI().String()), "method": string(req.Method())})
 			err := next(ctx, req, resp)
 			r.ev("MwOut", map[string]interface{}{"i": i, "errc": errClass(err), "status": resp.StatusCode()})
 			return err
@@ -173,6 +194,9 @@ func (r *runner) middleware(i int) client.Middleware {
 func (r *runner) retryIf(cancel context.CancelFunc) func(req *protocol.Request, resp *protocol.Response, err error) bool {
 	kind := r.c.RetryIf
 	return func(req *protocol.Request, resp *protocol.Response, err error) bool {
+		if r.x == 0 { // warm-up call
+			return false
+		}
 		st := resp.StatusCode()
 		var ans bool
 		switch kind {
@@ -303,7 +327,7 @@ func (r *runner) run() {
 	res["errc"], res["msg"], res["elapsedMs"] = errClass(rerr), errMsg(rerr), int(el/time.Millisecond)
 	if fromResp {
 		res["code"], res["rbody"] = resp.StatusCode(), string(resp.Body())
-		res["uri"], res["method"] = req.URI().String(), string(req.Method())
+		res["uri"], res["method"] = noFrag(req.URI().String()), string(req.Method())
 	} else {
 		res["uri"], res["method"] = "", ""
 	}
